@@ -29,6 +29,10 @@ PROPS["C14"] = {
     "units": [
         {"name": "C14a", "pkg": "server/protocol", "test": "TestVerifC14a",
          "quick": {"shards": 16, "checks": 60000}, "thorough": {"shards": 16, "checks": 600000, "timeout": 3000}},
+        {"name": "C14d", "pkg": "server", "test": "TestVerifC14d",
+         "quick": {"shards": 8, "checks": 20000}, "thorough": {"shards": 16, "checks": 300000, "timeout": 3000}},
+        {"name": "C14e", "pkg": "server", "test": "TestVerifC14e",
+         "quick": {"shards": 4, "checks": 25}, "thorough": {"shards": 16, "checks": 300, "timeout": 3000}},
     ],
 }
 
@@ -113,6 +117,8 @@ PROPS["C16"] = {
     "units": [
         {"name": "C16a", "pkg": "server/commitlog", "test": "TestVerifC16a",
          "quick": {"shards": 8, "checks": 1500}, "thorough": {"shards": 16, "checks": 20000, "timeout": 3000}},
+        {"name": "C16b", "pkg": "server", "test": "TestVerifC16b",
+         "quick": {"shards": 4, "checks": 40}, "thorough": {"shards": 16, "checks": 600, "timeout": 3000}},
     ],
 }
 PROPS["C03"] = {
@@ -140,6 +146,8 @@ PROPS["C17"] = {
     "units": [
         {"name": "C17a", "pkg": "server/encryption", "test": "TestVerifC17a",
          "quick": {"shards": 16, "checks": 3000}, "thorough": {"shards": 16, "checks": 100000, "timeout": 3000}},
+        {"name": "C17b", "pkg": "server", "test": "TestVerifC17b",
+         "quick": {"shards": 4, "checks": 15}, "thorough": {"shards": 16, "checks": 100, "timeout": 3000}},
     ],
 }
 
@@ -153,6 +161,8 @@ PROPS["C19"] = {
     "units": [
         {"name": "C19a", "pkg": "server/telemetry", "test": "TestVerifC19a",
          "quick": {"shards": 8, "checks": 100}, "thorough": {"shards": 16, "checks": 2000, "timeout": 3000}},
+        {"name": "C19b", "pkg": "server", "test": "TestVerifC19b",
+         "quick": {"shards": 4, "checks": 4}, "thorough": {"shards": 8, "checks": 25, "timeout": 3000}},
         {"name": "C19cfg", "pkg": "server", "test": "TestVerifC19cfg",
          "quick": {"shards": 2, "checks": 400}, "thorough": {"shards": 4, "checks": 4000}},
     ],
@@ -209,5 +219,21 @@ PROPS["C15"] = {
          "quick": {"shards": 4, "checks": 60}, "thorough": {"shards": 16, "checks": 600, "timeout": 3000}},
         {"name": "C15cfg", "pkg": "server", "test": "TestVerifC15cfg",
          "quick": {"shards": 2, "checks": 300}, "thorough": {"shards": 4, "checks": 3000}},
+    ],
+}
+
+PROPS["C11"] = {
+    "level": "exploration",
+    "technique": "model-based stateful property testing (rapid): SetCursor/FetchCursor histories with cleans, cache purges, pauses and restarts on a started server against a map",
+    "level_text": ("histories of SetCursor/FetchCursor over 3-40 (thorough: 600 > cache size) cursor keys on a started single-node server with a 2-partition cursors stream and tiny "
+                   "segments, interleaved with forced compaction of the cursors partitions, cache purges (what a leadership change does), cache bypass, pausing the cursors stream "
+                   "(auto-resumed by the next call) and server restarts; every FetchCursor that returns without error must return the value of the last successful SetCursor (or -1); "
+                   "a final sweep fetches every key through the log and through the cache"),
+    "level_note": "single node (no cursors-partition leader change between brokers); an error return is not a violation (counted, >20% makes the case inconclusive)",
+    "rule": "rapid draws key count and 4-40 operations (set, burst of sets, fetch, clean, purge, cache toggle, pause, restart). Non-trivial = at least one forced clean after cursors were stored (so later fetches read compacted, non-newest segments).",
+    "assumptions": TRUST,
+    "units": [
+        {"name": "C11", "pkg": "server", "test": "TestVerifC11",
+         "quick": {"shards": 8, "checks": 25}, "thorough": {"shards": 16, "checks": 300, "timeout": 3000}},
     ],
 }
